@@ -524,6 +524,13 @@ class Exec:
                             return 'all'
                     elif op == 'MapUpdate':
                         add_map(ins['map']['t'])
+                    elif op == 'Next' and not ins.get('isstring'):
+                        # the ghost set of keys a map iteration has produced
+                        d_ = (self.defs if func is self.f else {i['n']: i for b in func.blocks for i in b['instrs'] if 'n' in i}).get(ins['iter']['n'])
+                        if d_ is not None and d_['op'] == 'Range' and self.prog.under(d_['x']['t'])['k'] == 'map':
+                            ks_ = vc.sort_of(self.prog.under(d_['x']['t'])['key'])
+                            vc.heap_sorts['G.seen.%s' % san(ks_)] = 'Arr:Map:%s>Bool' % ks_
+                            add('G.seen.%s' % san(ks_), None)
                     elif op == 'Go':
                         return 'all'
             return None
